@@ -5,13 +5,13 @@ Mirrors /repo/tachys/src/view/keyed.rs **as it is**: `diff` / `group_adjacent_mo
 after the repair of finding F-C11-1 (/verif/hooks/fix-c11-1.patch: a moved item may skip its DOM move
 only if it does not overtake another item that keeps its place; grouping keeps the `move_in_dom` flag).
 The functions before the repair are kept as `diffOld` / `groupAdjacentMovesOld` / `rebuildOld`; the
-theorems about them (refutation witness, exact failure class) stay as regression theorems. Likewise
-`KState.unmount` is the function after the repair of F-C11-2 (`unmount` forgets the parent) and
-`KState.unmountOld` the one before.
+theorems about them (refutation witness, exact failure class) stay as regression theorems.
 
 A list state records whether it has a parent (`KState.parent`, Rust `parent: Option<Element>`): `build`
-leaves it `None`, `mount` sets it, `rebuild` updates the DOM only if it is set (`applyDiff`), otherwise
-only the stored items (`applyDiffDetached`). Items are blocks of ≥ 1 nodes of any kind (elements, text
+leaves it `None`, `mount` sets it, `unmount` keeps it, `rebuild` runs the DOM half of `apply_diff` only if
+it is set (`applyDiff`), otherwise only the stored items are updated (`applyDiffDetached`). After `unmount`
+the DOM half still runs, but every `insertBefore` refers to a node that is no longer a child of the parent:
+a `NotFoundError`, swallowed by tachys, without any effect (`insertBefore`). Items are blocks of ≥ 1 nodes of any kind (elements, text
 nodes, placeholders of `()` / `None` members, the nodes of a fragment or of a nested keyed list with
 its marker): `mount` / `unmount` / `insert_before_this` of such views act on the flat block.
 
@@ -427,16 +427,10 @@ def KState.mount (s : KState) (ref : Option NodeId) : KState :=
   let kids := (s.w.storage.filterMap id).foldl (fun ks it => mountItem ks it ref) s.w.kids
   { s with w := { s.w with kids := insertBefore kids s.marker ref }, parent := true }
 
-/-- `KeyedState::unmount` (after the repair of finding F-C11-2, /verif/hooks/fix-c11-2.patch: `unmount`
-forgets the parent, so a `rebuild` before the next `mount` only updates the stored items) -/
+/-- `KeyedState::unmount`: the items and the marker leave the DOM; `parent` is kept (so a `rebuild` before
+the next `mount` still runs the DOM half of `apply_diff`: every insertion then refers to a node that is not
+a child of the parent and fails without effect, see `insertBefore`) -/
 def KState.unmount (s : KState) : KState :=
-  let w := (s.w.storage.filterMap id).foldl World.unmount s.w
-  { s with w := { w with kids := removeNode w.kids s.marker }, parent := false }
-
-/-- `KeyedState::unmount` BEFORE the repair of F-C11-2: the parent is kept, and a list that is rebuilt after
-`unmount` still tries to insert into its old parent, relative to a marker that is no longer there (every
-such `insertBefore` is a `NotFoundError`, swallowed by `or_debug!`) -/
-def KState.unmountOld (s : KState) : KState :=
   let w := (s.w.storage.filterMap id).foldl World.unmount s.w
   { s with w := { w with kids := removeNode w.kids s.marker } }
 
